@@ -68,3 +68,10 @@ package lang
 //@ func MatchNilCheck
 //@   property C02
 //@   ensures shape: result0 != nil ==> istype(v, *ssa.BinOp) && (v.(*ssa.BinOp).Op == token.EQL || v.(*ssa.BinOp).Op == token.NEQ) && (result1 <==> v.(*ssa.BinOp).Op == token.EQL) && ((result0 == v.(*ssa.BinOp).Y && v.(*ssa.BinOp).X.String() == "nil:error") || (result0 == v.(*ssa.BinOp).X && v.(*ssa.BinOp).Y.String() == "nil:error"))
+
+//@ func LastInstr
+//@   property C02
+//@   requires block != nil
+//@   ensures empty: len(block.Instrs) == 0 ==> result == nil
+//@   ensures last: len(block.Instrs) > 0 ==> result == block.Instrs[len(block.Instrs) - 1]
+//@   modifies nothing
